@@ -16,7 +16,8 @@ class SessionModel:
         pflag, psid = prev
         if flag and not pflag:
             return True
-        if flag and pflag and sid <= psid:
+        if flag and pflag and sid <= psid and psid > 0:
+            # (a predecessor with session id 0 - "session handling not active", never sent by an SD stack - is no evidence)
             return True
         return False
 
